@@ -67,6 +67,15 @@ delta_cases = st.builds(
     lambda d, seq, isint: {'k': 'delta', 'delta8': d, 'seq8': seq, 'int': isint},
     st.integers(0, 40), st.lists(eighths, min_size=1, max_size=12), st.booleans())
 
+# conditional event type + filters that edit the 'value' item: the branch is chosen from the data
+# that left the filters (the destination evaluates the condition)
+VEDITS = ['none', 'set_true', 'set_false', 'delete', 'negate', 'reject_falsy']
+cond_cases = st.builds(
+    lambda tf, vals, edits: {'k': 'cond', 'etrue': tf[0], 'efalse': tf[1], 'values': vals, 'edits': edits},
+    st.sampled_from([['t', 'f'], ['t', None], [None, 'f'], ['t', 't']]),
+    st.lists(st.sampled_from([0, 1, '', 'x', None, 'ABSENT']), min_size=1, max_size=4),
+    st.lists(st.sampled_from(VEDITS), max_size=2))
+
 ctrl_cases = st.builds(
     lambda init, puts, how: {'k': 'ctrl', 'init': init, 'puts': puts, 'how': how},
     st.sampled_from([0, 1, '', 'on', None, 2.5, False, True, {}, {'k': 0}, []]),
@@ -97,7 +106,7 @@ nfu_cases = st.builds(
 
 def strategy(tier):
     return st.one_of(pipe_cases, pipe_cases, edge_cases, delta_cases, ctrl_cases, dedit_cases,
-                     dedit_cases, nfu_cases)
+                     dedit_cases, nfu_cases, cond_cases)
 
 
 def exhaustive(tier):
@@ -393,6 +402,71 @@ def exec_ctrl(case, res):
     res.classes = ['ctrl', 'ctrl/' + case['how']]
 
 
+def exec_cond(case, res):
+    log = []
+    results = []
+
+    def mk(edit):
+        if edit == 'set_true':
+            return edzed.DataEdit.add(value='yes')
+        if edit == 'set_false':
+            return edzed.DataEdit.add(value=0)
+        if edit == 'delete':
+            return edzed.DataEdit.delete('value')
+        if edit == 'negate':
+            return lambda data: {**data, 'value': not data.get('value')}
+        if edit == 'reject_falsy':
+            return lambda data: bool(data.get('value'))
+        return lambda data: True
+
+    async def scenario(loop):
+        harness.reset()
+        rec = harness.Recorder('rec', x_log=log)
+        src = harness.Src('src', x_init=0)
+        ev = edzed.Event(rec, edzed.EventCond(case['etrue'], case['efalse']),
+                         efilter=[mk(e) for e in case['edits']])
+        async with harness.Running() as sim:
+            if sim.init_error is not None:
+                raise harness.vloop.HarnessError(f"init failed: {sim.init_error!r}")
+            for v in case['values']:
+                n = len(log)
+                r = ev.send(src, **({} if v == 'ABSENT' else {'value': v}))
+                results.append((r, [(e['etype'], e['data']) for e in log[n:]]))
+
+    harness.run_case(scenario)
+    flipped = False
+    for v, (r, delivered) in zip(case['values'], results):
+        data = {'source': 'src'}
+        if v != 'ABSENT':
+            data['value'] = v
+        rejected = False
+        for e in case['edits']:
+            if e == 'set_true':
+                data['value'] = 'yes'
+            elif e == 'set_false':
+                data['value'] = 0
+            elif e == 'delete':
+                data.pop('value', None)
+            elif e == 'negate':
+                data['value'] = not data.get('value')
+            elif e == 'reject_falsy' and not data.get('value'):
+                rejected = True
+                break
+        if rejected:
+            want_r, want = False, []
+        else:
+            etype = case['etrue'] if data.get('value') else case['efalse']
+            want_r, want = True, ([] if etype is None else [(etype, data)])
+            if bool(data.get('value')) != bool(None if v == 'ABSENT' else v):
+                flipped = True
+        if r is not want_r or delivered != want:
+            res.fail('C16.conditional_event', f"EventCond({case['etrue']!r}, {case['efalse']!r}) with filters "
+                     f"{case['edits']}, value {v!r}: send() -> {r!r}, delivered {delivered}, expected {want}")
+            break
+    res.nontrivial = flipped
+    res.classes = ['cond'] + (['cond/filter changes the truth of value'] if flipped else [])
+
+
 def exec_dedit(case, res):
     ops = case['ops']
     want = dedit_model(ops, case['input'])
@@ -484,6 +558,8 @@ def execute(case):
         res.outcome = {'delta': delta, 'passed': pattern}
     elif k == 'ctrl':
         exec_ctrl(case, res)
+    elif k == 'cond':
+        exec_cond(case, res)
     elif k == 'dedit':
         exec_dedit(case, res)
     elif k == 'dedit_all_inputs':
